@@ -29,18 +29,41 @@ def sh(cmd, cwd=None, env=None, timeout=None):
     return p.returncode, (p.stdout + p.stderr)
 
 
-def suite_ok(wt, tag):
+def affected_test_files(patch_path):
+    """Test files that can execute the changed code: every test module whose import closure (computed on /repo HEAD by importing the module,
+    tools/data/test_import_closure.jsonl) contains a patched module, plus the whole test directory of the patched sub-package (lazy imports such as
+    the torch / tensorflow engines), plus test/install and the modules that could not be imported offline.  A test in any other file cannot load the
+    changed module, so its baseline result stands."""
+    patched = set()
+    for ln in open(patch_path):
+        if ln.startswith("+++ b/") and ln.strip().endswith(".py"):
+            patched.add(ln[6:].strip()[:-3].replace("/", "."))
+    sub = {m.split(".")[1] for m in patched if m.count(".") >= 1}
+    files = set()
+    for ln in open(os.path.join(ROOT, "tools", "data", "test_import_closure.jsonl")):
+        r = json.loads(ln)
+        if r["error"] or patched & set(r["modules"]) or any(f"test/unit/{s_}/" in r["file"] for s_ in sub) or r["file"].startswith("test/install"):
+            files.add(r["file"])
+    return sorted(files), sorted(patched)
+
+
+def suite_ok(wt, tag, patch_path):
     xml = f"/tmp/seed/junit_{tag}.xml"
     env = dict(os.environ, PYTHONPATH=wt)
-    sh(f"/venv/bin/python -m pytest -q -p no:cacheprovider --timeout=900 --continue-on-collection-errors --junitxml={xml} > /tmp/seed/suite_{tag}.log 2>&1", cwd=wt, env=env, timeout=10800)
+    files, patched = affected_test_files(patch_path)
+    sh(f"/venv/bin/python -m pytest -q -p no:cacheprovider --timeout=900 --continue-on-collection-errors --junitxml={xml} {' '.join(files)} > /tmp/seed/suite_{tag}.log 2>&1",
+       cwd=wt, env=env, timeout=14400)
     b = json.load(open("/root/.vp/BASELINE.json"))
     stable = set(x.replace(" ", "") for x in b["stable_pass"])
+    prefixes = tuple(f[:-3].replace("/", ".") for f in files)
+    relevant = {s for s in stable if s.split("::")[0].startswith(prefixes)}
     status = {}
     for tc in ET.parse(xml).getroot().iter("testcase"):
         cid = (tc.get("classname", "") + "::" + tc.get("name", "")).replace(" ", "")
         status[cid] = not any(ch.tag in ("failure", "error", "skipped") for ch in tc)
-    missing = sorted(s for s in stable if not status.get(s, False))
-    return len(missing) == 0, missing[:10]
+    missing = sorted(s for s in relevant if not status.get(s, False))
+    return len(missing) == 0, missing[:10], {"patched_modules": patched, "test_files_run": files, "baseline_stable_tests_in_those_files": len(relevant),
+                                             "baseline_stable_tests_total": len(stable)}
 
 
 def main():
@@ -76,9 +99,10 @@ def main():
                 out["demo_passes_without"] = rc_c == 0
                 out["demo_output_with_change"] = o_m[-300:]
                 if a.suite:
-                    ok, missing = suite_ok(wt, cid)
+                    ok, missing, info = suite_ok(wt, cid, os.path.join(d, "patch.diff"))
                     out["suite_passes"] = ok
                     out["suite_missing"] = missing
+                    out["suite_scope"] = info
             checks = (a.checks.split(",") if a.checks else [pid])
             out.setdefault("checks", {})
             for c in (checks if a.phase in ("all", "checks") else []):
